@@ -124,7 +124,10 @@ func (p *parser) advance() bool {
 				p.lastComment.WriteByte('\n')
 			}
 			p.lastComment.WriteString(p.input[start:p.position])
-			p.next()
+			// consume the newline that ends the comment; at end of input there is none
+			if p.next() != '\n' {
+				p.backup()
+			}
 
 		} else {
 			p.backup()
